@@ -191,7 +191,7 @@ func (fc *FuncContract) Spec() *sym.FnSpec {
 	return &sym.FnSpec{
 		Requires: func(fx *sym.FnExec, st *sym.State, args []sym.Value) {
 			// receivers and pointer params: contracts are about calls on non-nil receivers unless stated otherwise
-			env := &Env{Fx: fx, St: st, Old: st, Vars: fc.vars(fx, args, nil), Set: fc.Set, Skol: skol, Owner: fc.Key, Assume: true}
+			env := &Env{Fx: fx, St: st, Old: st, Vars: fc.vars(fx, args, nil), Set: fc.Set, Skol: skol, Owner: fc.Key, Assume: true, Own: true, Fuel: fc.Fuel, Opaque: fc.Opaque}
 			if fc.Fn.Signature.Recv() != nil {
 				if p, ok := args[0].(sym.PtrV); ok && !fc.Flags["nilrecv"] {
 					st.Assume(Not(p.Nil))
@@ -206,7 +206,7 @@ func (fc *FuncContract) Spec() *sym.FnSpec {
 			}
 		},
 		Post: func(fx *sym.FnExec, entry, exit *sym.State, args []sym.Value, ret sym.Value, ri int) {
-			env := &Env{Fx: fx, St: exit, Old: entry, Vars: fc.vars(fx, args, ret), Set: fc.Set, Skol: skol, Owner: fc.Key}
+			env := &Env{Fx: fx, St: exit, Old: entry, Vars: fc.vars(fx, args, ret), Set: fc.Set, Skol: skol, Owner: fc.Key, Fuel: fc.Fuel, Opaque: fc.Opaque, Own: true}
 			for i, en := range fc.Ensures {
 				t, err := env.Bool(en)
 				if err != nil {
@@ -361,7 +361,9 @@ func (fc *FuncContract) Apply(fx *sym.FnExec, fr *sym.Frame, fn *ssa.Function, a
 			if _, isScalar := sym.IsByteLike(res.At(ri).Type()); !isScalar {
 				continue
 			}
-			tv, err := env.Eval(side[1])
+			envA := *env
+			envA.Assume = true
+			tv, err := envA.Eval(side[1])
 			if err != nil {
 				continue
 			}
@@ -522,7 +524,7 @@ func (s *Set) LoopSpecs() func(fn *ssa.Function, ord int) *sym.LoopSpec {
 			if old == nil {
 				old = st
 			}
-			return &Env{Fx: fx, St: st, Old: old, Vars: vars, Set: s, Skol: skol, Owner: fmt.Sprintf("%s.loop%d", fc.Key, ord)}
+			return &Env{Fx: fx, St: st, Old: old, Vars: vars, Set: s, Skol: skol, Owner: fmt.Sprintf("%s.loop%d", fc.Key, ord), Fuel: fc.Fuel, Opaque: fc.Opaque, Own: true}
 		}
 		ls := &sym.LoopSpec{Unroll: lc.Unroll, Bounded: lc.Bounded}
 		ls.Invariant = func(fx *sym.FnExec, fr *sym.Frame, st *sym.State, entry *sym.State, assume bool) []*sym.NamedTerm {
